@@ -209,7 +209,7 @@ func (fr *Frame) evalLogChain(s *State, call *ast.CallExpr) []*Val {
 
 func (fr *Frame) havocCall(s *State, t types.Type, what string) []*Val {
 	fr.eng.havocked[what] = true
-	s.havocAll()
+	fr.havocEverything(s)
 	return fr.freshResults(s, t)
 }
 
@@ -586,7 +586,7 @@ func (fr *Frame) evalBuiltin(s *State, name string, call *ast.CallExpr) []*Val {
 		return nil
 	case "clear":
 		fr.eval(s, call.Args[0])
-		s.havocAll()
+		fr.havocEverything(s)
 		return nil
 	}
 	fr.unsupported(call.Pos(), "builtin "+name)
